@@ -97,6 +97,33 @@ func VH_C06_kill_subtree() {
 	vrtAssert(p.scheduler.Once(p.ref, time.Second, &vhUserMsg{N: 9}, vivid.WithSchedulerReference("job")) == nil, "schedule-ok")
 	w.run(100, "setup-terminates")
 
+	// at the instant an actor is reported terminated (a notice or the event is
+	// handed to a mailbox) its path is already released and its descendants
+	// have all been reported
+	earlyNotice, stillRegistered := 0, 0
+	vhOnEnqueue = func(b *vhBox, e vivid.Envelop) {
+		var who vivid.ActorRef
+		switch m := e.Message().(type) {
+		case *vivid.OnKilled:
+			if e.Receiver() != nil && m.Ref != nil && !m.Ref.Equals(e.Receiver()) {
+				who = m.Ref // a notice to somebody else, not the actor's own last message
+			}
+		case ves.ActorKilledEvent:
+			who = m.ActorRef
+		}
+		if who == nil {
+			return
+		}
+		if _, ok := w.sys.actorContexts.Load(who.GetPath()); ok {
+			stillRegistered++
+		}
+		for c := range w.boxes {
+			if c.parent != nil && c.parent.Equals(who) && c.state != killed {
+				earlyNotice++
+			}
+		}
+	}
+	defer func() { vhOnEnqueue = nil }()
 	poison := vrtBool()
 	p.TellSelf(&vhUserMsg{N: 1}) // user mail queued before the kill
 	w.root.Kill(p.ref, poison, "first")
@@ -165,6 +192,8 @@ func VH_C06_kill_subtree() {
 	for _, k := range kids {
 		vrtAssert(vhCountEnv(w.boxes[rec], isEvent(k.ref)) == 1, "one-killed-event")
 	}
+	vrtAssert(stillRegistered == 0, "path-released-before-termination-is-reported")
+	vrtAssert(earlyNotice == 0, "reported-terminated-only-after-all-descendants")
 	// released
 	_, err := w.sys.FindActor(p.ref.String())
 	vrtAssert(err != nil, "path-released")
